@@ -13,6 +13,50 @@ Theorem C03_local :
 Proof. exact local_denied. Qed.
 Print Assumptions C03_local.
 
+(** The same by CONFIGURATION.  The list a controller enforces ([enforced_writers]) is the
+    configured list when it names somebody; for the empty list it is the creator alone with
+    the ipfs controller (the default type) and nobody with the simple controller. *)
+Theorem C03_enforced_nonempty :
+  forall t creator W wildcard, W <> [] -> enforced_writers t creator W wildcard = W.
+Proof. exact enforced_nonempty. Qed.
+Print Assumptions C03_enforced_nonempty.
+
+Theorem C03_enforced_wildcard :
+  forall t creator W, enforced_writers t creator W true = W.
+Proof. exact enforced_wildcard. Qed.
+Print Assumptions C03_enforced_wildcard.
+
+Theorem C03_enforced_empty :
+  forall t creator,
+    enforced_writers t creator [] false = match t with ACIpfs => [creator] | ACSimple => [] end.
+Proof. exact enforced_empty. Qed.
+Print Assumptions C03_enforced_empty.
+
+Theorem C03_local_configured :
+  forall bi t creator cW id_key blk l h w o refs e1 l1,
+    ~ In w (enforced_writers t creator cW false) ->
+    append l h w w w w o refs (acc_of bi (enforced_writers t creator cW false) false id_key blk) = (e1, l1) ->
+    e1 = Err EDenied /\ lents l1 = lents l /\ lheads l1 = lheads l /\ lnext l1 = lnext l.
+Proof. exact local_denied_configured. Qed.
+Print Assumptions C03_local_configured.
+
+(** ipfs controller, empty list: everybody except the creator is refused. *)
+Theorem C03_local_ipfs_default :
+  forall bi creator id_key blk l h w o refs e1 l1,
+    w <> creator ->
+    append l h w w w w o refs (acc_of bi (enforced_writers ACIpfs creator [] false) false id_key blk) = (e1, l1) ->
+    e1 = Err EDenied /\ lents l1 = lents l /\ lheads l1 = lheads l /\ lnext l1 = lnext l.
+Proof. exact local_denied_ipfs_default. Qed.
+Print Assumptions C03_local_ipfs_default.
+
+(** simple controller, empty or absent list: everybody is refused, the creator included. *)
+Theorem C03_local_simple_empty :
+  forall bi creator id_key blk l h w o refs e1 l1,
+    append l h w w w w o refs (acc_of bi (enforced_writers ACSimple creator [] false) false id_key blk) = (e1, l1) ->
+    e1 = Err EDenied /\ lents l1 = lents l /\ lheads l1 = lheads l /\ lnext l1 = lnext l.
+Proof. exact local_denied_simple_empty. Qed.
+Print Assumptions C03_local_simple_empty.
+
 (** Remote routes (announced head, head exchange, manual sync, ancestor of a colluding
     writer's entry all end in the store joining the fetched entry).  With the identity
     binding in CanAppend and the store-side log-id filter: from any log satisfying the
@@ -36,6 +80,28 @@ Theorem C03_remote_init :
   forall W wildcard id_key blk U id, lgood W wildcard id_key blk U (empty_log id).
 Proof. exact lgood_empty. Qed.
 Print Assumptions C03_remote_init.
+
+(** Remote routes by configuration, the empty list.  Simple controller: whatever is
+    delivered, a log that starts empty stays empty. *)
+Theorem C03_remote_simple_empty :
+  forall creator id_key blk U id xs,
+    hash_inj U -> incl xs U ->
+    let l' := merge_fetched true (acc_of true (enforced_writers ACSimple creator [] false) false id_key blk)
+                            (empty_log id) xs in
+    lents l' = [] /\ lheads l' = [] /\ values l' = [].
+Proof. exact simple_empty_stays_empty. Qed.
+Print Assumptions C03_remote_simple_empty.
+
+(** ipfs controller: everything that gets in was authored by the key the creator endorses. *)
+Theorem C03_remote_ipfs_default :
+  forall creator id_key blk U l xs,
+    hash_inj U -> incl xs U ->
+    lgood (enforced_writers ACIpfs creator [] false) false id_key blk U l ->
+    let l' := merge_fetched true (acc_of true (enforced_writers ACIpfs creator [] false) false id_key blk) l xs in
+    forall e, In e (lents l') \/ In e (lheads l') \/ In e (values l') ->
+      entry_verify e = true /\ elog e = lid l /\ author e = id_key creator.
+Proof. exact ipfs_default_only_creator. Qed.
+Print Assumptions C03_remote_ipfs_default.
 
 (** The pinned commit (the identity provider's VerifyIdentity accepts everything): an
     entry that names writer 1 but carries, and is signed with, key 9 — which no identity
